@@ -438,10 +438,9 @@ def gen_large_counts(gseed, n, kind):
                 for _ in range(6):                         # rare exchanges between neighbouring blocks
                     add(rng.choice(members[a]), rng.choice(members[(a + 1) % 4]), 1)
                     add(rng.choice(members[(a + 1) % 4]), rng.choice(members[a]), 1)
-            perm = rng.permutation(n)                      # a weak ring keeps it strongly connected
-            for a in range(n):
-                if b[perm[a]] == b[perm[(a + 1) % n]]:
-                    add(perm[a], perm[(a + 1) % n], 1)
+                pm = rng.permutation(members[a])           # a ring inside the block keeps it strongly connected
+                for t in range(len(pm)):
+                    add(pm[t], pm[(t + 1) % len(pm)], rng.integers(5, 30))
         elif kind == 'aperiodic-random':
             for i in range(n):
                 add(i, (i + 1) % n, rng.integers(1, 10))
@@ -586,7 +585,7 @@ def large_sparse_family(ctx):
     plan = []
     # threshold straddle with the same periodic structure
     for k, n in enumerate([999, 1000, 1001]):
-        plan.append((n, 'periodic-%d' % [3, 2, 4][k], conts[k], 2 if n < 1000 else 5, n == 1000))
+        plan.append((n, 'periodic-%d' % [3, 2, 4][k], conts[k], 1 if n < 1000 else 5, n == 1000))
     sizes = [1024, 1500, 2048, 1000, 1001]
     kinds = ['periodic-2', 'periodic-3', 'periodic-4', 'periodic-6', 'near-periodic-3', 'near-periodic-2',
              'metastable-blocks', 'aperiodic-random']
@@ -599,11 +598,15 @@ def large_sparse_family(ctx):
             calls = 5 if kind.startswith('periodic') else 2
             plan.append((n, kind, cont, calls, False))
             i += 1
-    for n, kind, cont, calls, with_dense in plan:
-        gseed = int(ctx.rng.integers(0, 2 ** 31))
-        check_large(ctx, gseed, n, kind, cont, calls, with_dense=with_dense)
-        if sum(1 for v in ctx.violations if v.get('key') is None) >= 12:
-            break
+    # LAPACK's dense `eig` (the < 1000-state path) is several times slower with a multi-threaded BLAS on a
+    # busy machine than with one thread
+    from threadpoolctl import threadpool_limits
+    with threadpool_limits(limits=1):
+        for n, kind, cont, calls, with_dense in plan:
+            gseed = int(ctx.rng.integers(0, 2 ** 31))
+            check_large(ctx, gseed, n, kind, cont, calls, with_dense=with_dense)
+            if sum(1 for v in ctx.violations if v.get('key') is None) >= 12:
+                break
 
 
 def scipy_table(ctx):
